@@ -36,8 +36,10 @@ func checkC05(c *Ctx, r *Result, tier string) {
 			continue
 		}
 		// the ECAL function object: its Run parents a scope
+		// the call scope gets its parent either by SetParentOfScope(child, parent) or at its
+		// creation by NewScopeWithParent(name, parent)
 		parents := callSites(fn, func(name string, _ ssa.CallInstruction) bool {
-			return strings.HasSuffix(name, "scope.SetParentOfScope")
+			return strings.HasSuffix(name, "scope.SetParentOfScope") || strings.HasSuffix(name, "scope.NewScopeWithParent")
 		})
 		if len(parents) == 0 {
 			continue
@@ -47,11 +49,28 @@ func checkC05(c *Ctx, r *Result, tier string) {
 		key := c.FuncKey(fn)
 		// the body is what is evaluated after the call scope was parented; parameter defaults are
 		// evaluated before, in the caller's scope
+		childOf := func(pc ssa.CallInstruction) ssa.Value {
+			if strings.HasSuffix(callName(pc), "scope.NewScopeWithParent") {
+				if v, isVal := pc.(ssa.Value); isVal {
+					return v
+				}
+			}
+			return pc.Common().Args[0]
+		}
 		nEval := checkFreshFrame(c, r, fn, rtIface, "R05b-fresh", func(in ssa.Instruction) bool {
 			for _, pc := range parents {
-				if dominates(pc, in) {
-					return true
+				if !dominates(pc, in) {
+					continue
 				}
+				// with the parent given at creation, parameter defaults are evaluated after that
+				// point too, in the caller's scope: the body is what runs in the call scope itself
+				if strings.HasSuffix(callName(pc), "scope.NewScopeWithParent") {
+					if ci, ok := in.(ssa.CallInstruction); ok && len(ci.Common().Args) > 0 && unspill(ci.Common().Args[0]) == unspill(childOf(pc)) {
+						return true
+					}
+					continue
+				}
+				return true
 			}
 			return false
 		})
@@ -62,6 +81,11 @@ func checkC05(c *Ctx, r *Result, tier string) {
 			site := fmt.Sprintf("%s#SetParentOfScope#%d", key, i)
 			pos := c.Pos(c.InstrPos(pc))
 			child := pc.Common().Args[0]
+			if strings.HasSuffix(callName(pc), "scope.NewScopeWithParent") {
+				if v, isVal := pc.(ssa.Value); isVal {
+					child = v
+				}
+			}
 			var late []string
 			nBind := 0
 			allInstrs(fn, func(in ssa.Instruction) {
@@ -77,7 +101,9 @@ func checkC05(c *Ctx, r *Result, tier string) {
 					return
 				}
 				nBind++
-				if canReach(pc, in) {
+				// SetLocalValue defines in the call scope whatever its parent is; SetValue looks the
+				// name up through the parent first
+				if canReach(pc, in) && m == "SetValue" {
 					late = append(late, c.Pos(c.InstrPos(in)))
 				}
 			})
@@ -94,7 +120,7 @@ func checkC05(c *Ctx, r *Result, tier string) {
 			case len(late) > 0:
 				r.Instance("R05b", site, pos, "finding", "bindings after parenting: "+strings.Join(late, " "), true)
 				r.Report(Finding{Rule: "R05b", Site: site, Pos: pos,
-					Msg: fmt.Sprintf("%s binds names on the call scope after it was parented to the declaration scope (%s): a parameter named like an outer variable updates that outer variable instead of being defined in the call frame", key, strings.Join(late, " "))})
+					Msg: fmt.Sprintf("%s binds names with SetValue on the call scope after it was parented to the declaration scope (%s): a parameter, `this` or `super` named like a variable of an enclosing scope updates that outer variable instead of being defined in the call frame", key, strings.Join(late, " "))})
 			case !bodyOK:
 				r.Instance("R05b", site, pos, "finding", "body not evaluated in the parented call scope", true)
 				r.Report(Finding{Rule: "R05b", Site: site, Pos: pos,
